@@ -1680,7 +1680,7 @@ func (n *node) spawn(factory gen.ProcessFactory, options gen.ProcessOptionsExtra
 	// create a new process with provided behavior
 	behavior := factory()
 	if behavior == nil {
-		n.names.Delete(p.name)
+		n.names.CompareAndDelete(p.name, p)
 		return p.pid, errors.New("factory function must return non nil value")
 	}
 	p.behavior = behavior
@@ -1701,7 +1701,7 @@ func (n *node) spawn(factory gen.ProcessFactory, options gen.ProcessOptionsExtra
 	p.log.setSource(logSource)
 
 	if err := behavior.ProcessInit(p, options.Args...); err != nil {
-		n.names.Delete(p.name)
+		n.names.CompareAndDelete(p.name, p)
 		// make sure to notify children that might have been spawned
 		// (during ProcessInit callback) with the enabled LinkParent option
 		messageExit := gen.MessageExitPID{
@@ -1769,10 +1769,13 @@ func (n *node) spawn(factory gen.ProcessFactory, options gen.ProcessOptionsExtra
 
 func (n *node) unregisterProcess(p *process, reason error) {
 	n.processes.Delete(p.pid)
+	ownName := false
 	if p.registered.Load() {
 		// release the name before the exit signals are routed: a supervisor
-		// restarting this process must be able to register the name again
-		n.names.Delete(p.name)
+		// restarting this process must be able to register the name again.
+		// Remove the entry only if it is (still) ours: a concurrent UnregisterName may
+		// have removed it already and the name may belong to another process by now
+		ownName = n.names.CompareAndDelete(p.name, p)
 	}
 	lib.VerifPoint("proc.unreg.deleted", p.pid)
 	n.RouteTerminatePID(p.pid, reason)
@@ -1785,7 +1788,7 @@ func (n *node) unregisterProcess(p *process, reason error) {
 	}
 	n.log.Trace("...unregisterProcess %s", p.pid)
 
-	if p.registered.Load() {
+	if ownName {
 		pname := gen.ProcessID{Name: p.name, Node: n.name}
 		lib.VerifPoint("proc.unreg.name", pname)
 		n.RouteTerminateProcessID(pname, reason)
